@@ -363,11 +363,34 @@ func runC10(env *Env) {
 			if !o.complete {
 				rep.Violate("C10-completion", cs, "every task was answered but the instance did not complete; log: "+logString(o.log))
 			}
-			_ = items
+			var sp, cops []string
+			for i := range sh.kinds {
+				sp = append(sp, fmt.Sprintf("(%d,%d)", b2i(sh.kinds[i]), sh.evs[i]))
+			}
+			for i, op := range ops {
+				if o.trace[i] == 0 {
+					continue
+				}
+				var k int
+				switch op[0] {
+				case 'p':
+					cops = append(cops, "0")
+				case 'a':
+					cops = append(cops, "1")
+				case 'e':
+					fmt.Sscanf(op[1:], "%d", &k)
+					cops = append(cops, fmt.Sprint(2+k))
+				case 'r':
+					fmt.Sscanf(op[1:], "%d", &k)
+					cops = append(cops, fmt.Sprint(100+k))
+				}
+			}
+			items = append(items, fmt.Sprintf("([%s],[%s],%d,%s,%d)", strings.Join(sp, ";"), strings.Join(cops, ";"), o.normal, natList(o.exc), b2i(o.complete)))
 			if nontriv && len(rep.Samples) < 5 {
 				rep.Sample(fmt.Sprintf("%s -> requests [normal, exception...] %v, completed %v", cs, got, o.complete))
 			}
 		}
 	}
+	env.WriteCases(rep, "", "Corr.C10corr", "list (nat * nat) * list nat * nat * list nat * nat", items, "c10_mismatches")
 	env.WriteReport(rep)
 }
